@@ -270,6 +270,11 @@ func (C18) Generate(c *Ctx, r *Rand, index int) *Scenario {
 		if sc == nil {
 			return nil
 		}
+		if strings.Contains(sc.Strace, "when=") {
+			// which system call `when=N` hits is decided by the Go runtime's choice of thread, not by the
+			// scenario: not a fair input for a determinism oracle
+			sc.Strace = ""
+		}
 		sc.SetMeta("sub", "determinism")
 		sc.SetMeta("src", src)
 		return sc
